@@ -25,13 +25,29 @@ def stripSkipBlock : List Atom → Option (List Atom)
       | _ => none
     else (stripSkipBlock as).map (a :: ·)
 
+/-- the sanity block `if t.tempDirsExist() { t.Failf(..) }` is the op `checkTempDir` (fail when a temp dir
+is left over); any other use of `tempDirsExist` (result stored, tested later, negated ..) is not -/
+def isTempBlock (c : Atom) (tl : List Atom) : Bool :=
+  match tl with
+  | i :: f :: e :: _ =>
+    c.isCall "tempDirsExist" && i.kind == .ifB_ && i.name == "t.tempDirsExist()" && f.isCall "Failf" && e.kind == .endB_
+  | _ => false
+
+/-- first argument: number of atoms still to skip (the rest of a folded block) -/
+def foldTempBlock : Nat → List Atom → List Atom
+  | _, [] => []
+  | n + 1, _ :: tl => foldTempBlock n tl
+  | 0, c :: tl =>
+    if isTempBlock c tl then ⟨.call_, "checkTempDir#", "t", []⟩ :: foldTempBlock 3 tl else c :: foldTempBlock 0 tl
+
 def harmlessCalls : List String :=
   ["Failf", "Fail", "Path", "TempDir", "TempPath", "FifoPath", "Name", "string", "IsNotExist", "Stat", "Dir",
    "close", "len", "append", "IsDir", "Join"]
 
 def execOp (a : Atom) : Option TaskOp :=
   if a.kind == .call_ then
-    if a.name == "tempDirsExist" then some .checkTempDir
+    if a.name == "checkTempDir#" then some .checkTempDir
+    else if a.name == "tempDirsExist" then some .unknown
     else if a.name == "anyOutputsExist" then some .skipIfOutputs
     else if a.name == "IncConcurrentTasks" then some .acquire
     else if a.name == "createDirs" then some .mkdirs
@@ -54,7 +70,7 @@ def dedupRun : List TaskOp → List TaskOp
 def execOps : List TaskOp :=
   match stripSkipBlock Scipipe.Task_Execute with
   | none => [.unknown]
-  | some l => dedupRun (l.filterMap execOp)
+  | some l => dedupRun ((foldTempBlock 0 l).filterMap execOp)
 
 def finOp (a : Atom) : Option FinOp :=
   if a.kind == .call_ then
